@@ -315,6 +315,7 @@ fn run_child(n: &str, pool: &str, progs: &str) -> String {
 }
 
 pub fn run(key: &str, a: &[String], out: &mut Out) {
+    out.begin(key, a);
     match key {
         "C19.types" => {
             let names = type_assertions();
